@@ -45,7 +45,9 @@ func VerifC19Deposit() {
 func VerifC19Accounting() {
 	notary, n := vParam(0) == 1, vParam(1)
 	fee, cfee := vInt("withdrawFee"), vInt("candidateFee")
-	vAssume(fee >= 0 && fee <= 1000 && cfee >= 0 && cfee <= 1000)
+	// the withdraw fee may be configured NEGATIVE (a byte string with its top bit set reads as one): no withdrawal
+	// can then be paid for, and none may be accepted for free
+	vAssume(fee >= -5 && fee <= 1000 && cfee >= 0 && cfee <= 1000)
 	vDeploy("neofs", !notary, vContractHash("processing"), alphabetKeys(n), []any{[]byte("InnerRingCandidateFee"), cfee, []byte("WithdrawFee"), fee})
 	vDeploy("processing", vContractHash("neofs"))
 	self, proc := vContractHash("neofs"), vContractHash("processing")
@@ -71,7 +73,8 @@ func VerifC19Accounting() {
 	if !notary {
 		total = fee * n
 	}
-	vAssert(done == (signs && w >= 0 && w <= 9000 && total <= funds-d), "C19/withdraw-accepted-iff-witnessed-in-range-and-fee-payable")
+	vAssert(done == (signs && w >= 0 && w <= 9000 && fee >= 0 && total <= funds-d), "C19/withdraw-accepted-iff-witnessed-in-range-and-fee-payable")
+	vCoverIf(!done && signs && fee < 0 && w >= 0 && w <= 9000, "negative-fee-refuses-the-withdrawal")
 	userGas := funds - d
 	if done {
 		vCover("withdraw-requested")
